@@ -244,7 +244,8 @@ def range_cases(draw):
          "used": draw(st.sampled_from([None, None, None, "pyramid-2", "pyramid-3", "other-interval"]))}
     if not use_grid and draw(st.integers(0, 3)) == 0:
         ra = -B + draw(st.sampled_from([-2, -1, 1]))
-        p["right_interval"] = [ra, max(ra, -A + draw(st.sampled_from([-1, 0, 1, 2])))]
+        # (kept, like the left one, where a full window of overlap remains: beyond lives C02's known finding)
+        p["right_interval"] = gen.clamp_interval([ra, max(ra, -A + draw(st.sampled_from([-1, 0, 1, 2])))], pair["W"], pipe)
     if use_grid:
         p["grid"] = draw(grid_spec(pair["H"], pair["W"], A, B))
     return p
